@@ -2,7 +2,7 @@
 from typing import Dict
 
 from .engine import Batch, Check
-from . import gen_a, gen_b, gen_f, oracles_a, oracles_c20, oracles_rules
+from . import c18, gen_a, gen_b, gen_f, oracles_a, oracles_c20, oracles_rules
 
 
 def _wd_c03(where):
@@ -35,6 +35,19 @@ def _c20_exc(err, scn, res):
     except Exception:
         return None
     return "C20"
+
+
+def _wd_c18(where):
+    for fn, name in where:
+        if fn.endswith("pams/utils/json_extends.py") or fn.endswith("pams/runners/sequential.py") and name.startswith("_generate"):
+            return "C18"
+    return None
+
+
+def _c18_exc(err, scn, res):
+    if res.get("phase") in ("setup", "construct"):
+        return "C18"
+    return None
 
 
 def registry() -> Dict[str, Check]:
@@ -209,5 +222,19 @@ def registry() -> Dict[str, Check]:
                      "fcn_window_1", "mm_base_from_quotes", "mm_base_from_market_price", "arb_basket_buy_index",
                      "arb_basket_sell_index", "arb_below_threshold", "arb_not_running", "msfcn_some_market_has_volume",
                      "test_agent_decision"],
+    )
+    reg["C18"] = Check(
+        "C18", {"C18"},
+        [Batch("A-config", c18.gen_config, 1500, 40000, driver="A", budget_s=5.0, profile="valid"),
+         Batch("A-hostile-config", c18.gen_config, 300, 8000, driver="A", budget_s=5.0, profile="hostile")],
+        plugins=lambda: [c18.ConfigPlugin()],
+        exc_is_violation=_c18_exc, watchdog_prop=_wd_c18,
+        nontrivial=lambda s: s["stats"].get("c18_entities", 0) >= 3 or any(k.startswith("hostile_config_rejected") for k in s["probes"]),
+        rule="Generated configs written through inheritance chains (depth 0-5, shared parents, overridden and "
+             "non-inheritable keys on ancestors), counts and inclusive ranges, prefixes, JsonRandom specs, legacy session "
+             "keys and user-registered classes, built by the real setup and compared with a reference expansion; hostile "
+             "configs must be rejected with the documented error within the watchdog. Non-trivial = >= 3 entities compared "
+             "or a hostile config rejected.",
+        need_probes=["c18_legacy_key", "c18_fcn_params_checked", "c18_event_checked"],
     )
     return reg
